@@ -529,9 +529,40 @@ impl<S: Storage> Builder<S> {
             .register(id, span.clone(), output_row_counter.clone());
 
         let (tx, rx) = async_broadcast::broadcast(16);
+        #[cfg(feature = "verif")]
+        let verif_op = name.split_whitespace().next().unwrap_or("").trim_matches(|c| c == '(' || c == ')').to_string();
+        #[cfg(feature = "verif")]
+        let mut verif_k = 0usize;
         let handle = tokio::task::Builder::default()
             .name(&format!("{id}.{name}"))
             .spawn(
+                #[cfg(feature = "verif")]
+                crate::verif::inherit_actor(
+                async move {
+                    loop {
+                        match crate::verif::fault(&verif_op, verif_k) {
+                            crate::verif::FaultAction::None => {}
+                            crate::verif::FaultAction::Error => {
+                                let _ = tx.broadcast(Err(ExecutorError::aborted())).await;
+                                return;
+                            }
+                            crate::verif::FaultAction::Panic => {
+                                panic!("verif: injected panic in operator {verif_op} at item {verif_k}")
+                            }
+                        }
+                        verif_k += 1;
+                        let Some(item) = stream.next().await else { break };
+                        if let Ok(chunk) = &item {
+                            output_row_counter.inc(chunk.cardinality() as _);
+                        }
+                        if tx.broadcast(item).await.is_err() {
+                            return;
+                        }
+                    }
+                }
+                .instrument(tracing::info_span!("executor", id = usize::from(id), name))
+                .timed(span)),
+                #[cfg(not(feature = "verif"))]
                 async move {
                     while let Some(item) = stream.next().await {
                         if let Ok(chunk) = &item {
